@@ -31,6 +31,7 @@ def gen_case(rng, thorough=False):
         allp = [(a, b) for i, a in enumerate(els) for b in els[i:]]
         c['dips'] = [[b, a] if rng.random() < 0.5 else [a, b] for (a, b) in allp if rng.random() < 0.6]
         c['quads'] = [[b, a] if rng.random() < 0.5 else [a, b] for (a, b) in allp if rng.random() < 0.6]
+        if rng.random() < 0.15: c['dips'] = []; c['quads'] = []          # no angular term declared at all: every block is still written, zero filled
     if w == 'funcfl':
         c['elements'] = c['elements'][:1]; c['pairs'] = [[c['elements'][0]['sp'], c['elements'][0]['sp']]]
         c['labels'] = [c['elements'][0]['sp']] + c['labels'][len(c['labels']) - 8:]
@@ -45,7 +46,7 @@ def run_recorded(case, fault_at=None):
     from atsim.potentials import writePotentials, writeFuncFL, Potential
     from atsim.potentials.pair_tabulation import GULP_PairTabulation, Excel_PairTabulation
     from atsim.potentials.eam_tabulation import ADP_EAMTabulation, Excel_EAMTabulation
-    rec = layout.Recorder(); rec.fault_at = fault_at
+    rec = layout.Recorder(); rec.fault_at = fault_at; rec.zero_every = case.get('zero_every')
     w = case['writer']
     if w in ('gulp', 'gulp_wp', 'excel'):
         pots = p_c01.build_potentials(case, rec)
@@ -99,6 +100,7 @@ def gen_potable(rng):
         allp = [(a, b) for i, a in enumerate(els) for b in els[i:]]
         c['dips'] = [((b, a) if rng.random() < 0.5 else (a, b), rng.choice(['as.polynomial 0.5 0.25', '>=0 as.constant 0.75', 'as.bornmayer 2.0 1.5'])) for (a, b) in allp if rng.random() < 0.6]
         c['quads'] = [((b, a) if rng.random() < 0.5 else (a, b), rng.choice(['as.polynomial -0.5 0.125', '>=0 as.constant -1.5', 'as.morse 1.0 2.0 0.25'])) for (a, b) in allp if rng.random() < 0.6]
+        if rng.random() < 0.15: c['dips'] = []; c['quads'] = []
     return c
 
 def potable_text(c):
